@@ -35,25 +35,21 @@ def _names_in(stmt):
     return direct, arrays, indexes
 
 
-@st.composite
-def cases(draw):
-    b = gen.Builder(draw, gen.Cfg(max_lets=3, max_maps=3, usepulses=False, general_numbers=False, max_depth=3, max_block=3, shadow=0.0))
+def _case(ch):
+    b = gen.Builder(ch, gen.Cfg(max_lets=3, max_maps=3, usepulses=False, general_numbers=False, max_depth=3, max_block=3, shadow=0.0))
     prog = empty_prog()
     b.header(prog)
     sc = b.sc
     # pool of statements in header scope
     pool = []
-    for _ in range(draw(st.integers(2, 4))):
+    for _ in range(ch.int(2, 4)):
         for _try in range(4):
             s = b.gate_stmt(False)
             if s is not None and _all_names(s):
                 pool.append(s)
                 break
-    nm = draw(st.integers(1, 3))
-    mnames = draw(st.lists(st.sampled_from(gen.MACRO_POOL), min_size=nm, max_size=nm, unique=True))
-    body_first = draw(st.booleans())
-    for mn in mnames:
-        mine = [s for s in pool if draw(st.integers(0, 5)) > 0]
+    for mn in ch.sample(gen.MACRO_POOL, ch.int(1, 3)):
+        mine = [s for s in pool if ch.int(0, 5) > 0]
         cand = {}
         for s in mine:
             direct, arrays, indexes = _names_in(s)
@@ -75,40 +71,41 @@ def cases(draw):
                         bound = min(bound, old[1])
                     cand[n] = ("idx", bound)
         params, roles = [], []
-        forced = draw(st.integers(0, max(0, len(cand) - 1)))
+        forced = ch.int(0, max(0, len(cand) - 1))
         for j, n in enumerate(sorted(cand)):
-            if j == forced or draw(st.booleans()):
+            if j == forced or ch.bool():
                 params.append(n)
                 roles.append(cand[n])
-        if draw(st.integers(0, 2)) == 0:
-            extra = draw(st.sampled_from(gen.PARAM_POOL))
+        if ch.int(0, 2) == 0:
+            extra = ch.pick(gen.PARAM_POOL)
             if extra not in params:
                 params.append(extra)
-                roles.append((draw(st.sampled_from(["qubit", "num"])), None))
-        # a let captured as "num" but used as an index elsewhere in this macro's copies must be idx
+                roles.append((ch.pick(["qubit", "num"]), None))
         saved = sc.params
         sc.params = dict(zip(params, roles))
         others = b.block_items("seq", 2, True, False, 2)
         stmts = list(mine) + others
-        perm = draw(st.permutations(range(len(stmts)))) if stmts else []
-        stmts = [stmts[i] for i in perm]
+        stmts = [stmts[i] for i in ch.perm(len(stmts))]
         sc.params = saved
-        kind = draw(st.sampled_from(["seq", "seq", "par"]))
+        kind = ch.pick(["seq", "seq", "par"])
         if kind == "par":
             stmts = [s for s in stmts if s[0] in ("g", "seq")]
         prog["macros"].append({"name": mn, "params": params, "body": [kind, stmts]})
         sc.macros.append((mn, roles, False))
-    main = [s for s in pool if draw(st.integers(0, 5)) > 0]
+    main = [s for s in pool if ch.int(0, 5) > 0]
     main += b.block_items("top", 1, False, False, 3)
-    for _ in range(draw(st.integers(0, 3))):
+    for _ in range(ch.int(0, 3)):
         if sc.macros:
-            name, roles, _hs = draw(st.sampled_from(sc.macros))
+            name, roles, _hs = ch.pick(sc.macros)
             args = [b.macro_arg(r, c) for r, c in roles]
             if all(a is not None for a in args):
                 main.append(["g", name, args])
-    perm = draw(st.permutations(range(len(main)))) if main else []
-    prog["body"] = [main[i] for i in perm]
+    prog["body"] = [main[i] for i in ch.perm(len(main))]
     return {"prog": prog, "pool": pool}
+
+
+def cases():
+    return gen.cases(_case)
 
 
 def _probe_args(roles_by_param, params, ref):
